@@ -126,7 +126,7 @@ func (e *Explorer) newCtx(prefix []uint64) *Ctx {
 // Run explores every path. Engine limitations are recorded in Incon.
 func (e *Explorer) Run() {
 	if e.MaxPaths == 0 {
-		e.MaxPaths = 4000
+		e.MaxPaths = 40000
 	}
 	if e.Reached == nil {
 		e.Reached = map[string]int{}
@@ -153,6 +153,75 @@ func (e *Explorer) Run() {
 		prefix := e.work[len(e.work)-1]
 		e.work = e.work[:len(e.work)-1]
 		e.runPath(prefix)
+	}
+}
+
+// Init prepares the result maps (for callers that schedule paths themselves).
+func (e *Explorer) Init() {
+	if e.Reached == nil {
+		e.Reached = map[string]int{}
+	}
+	if e.Funcs == nil {
+		e.Funcs = map[string]int{}
+	}
+	if e.Assumptions == nil {
+		e.Assumptions = map[string]bool{}
+	}
+	if e.Stubs == nil {
+		e.Stubs = map[string]int{}
+	}
+	if e.SymKinds == nil {
+		e.SymKinds = map[string]string{}
+		e.SymRanges = map[string][2]int64{}
+	}
+}
+
+// RunOne explores one path (identified by its decision prefix) and returns the
+// prefixes of the alternatives discovered along it.
+func (e *Explorer) RunOne(prefix []uint64) [][]uint64 {
+	e.work = nil
+	e.runPath(prefix)
+	w := e.work
+	e.work = nil
+	return w
+}
+
+// Merge adds the results of another explorer of the same job.
+func (e *Explorer) Merge(o *Explorer) {
+	e.Paths += o.Paths
+	e.Forks += o.Forks
+	e.Failures = append(e.Failures, o.Failures...)
+	e.Incon = append(e.Incon, o.Incon...)
+	e.AssertsTotal += o.AssertsTotal
+	e.AssertsTriv += o.AssertsTriv
+	e.AssertsSMT += o.AssertsSMT
+	e.Steps += o.Steps
+	e.OneShotQueries += o.OneShotQueries
+	e.OneShotDecided += o.OneShotDecided
+	e.OneShotTime += o.OneShotTime
+	e.BoundaryStops += o.BoundaryStops
+	e.PanicsSeen = append(e.PanicsSeen, o.PanicsSeen...)
+	e.Observed = append(e.Observed, o.Observed...)
+	if o.RingUsed {
+		e.RingUsed = true
+	}
+	for k, v := range o.Reached {
+		e.Reached[k] += v
+	}
+	for k, v := range o.Funcs {
+		e.Funcs[k] += v
+	}
+	for k, v := range o.Stubs {
+		e.Stubs[k] += v
+	}
+	for k := range o.Assumptions {
+		e.Assumptions[k] = true
+	}
+	for k, v := range o.SymKinds {
+		e.SymKinds[k] = v
+	}
+	for k, v := range o.SymRanges {
+		e.SymRanges[k] = v
 	}
 }
 
